@@ -18,7 +18,12 @@ import KonstVerif.Spec.ArrayStd
                                           answer `noarray` unless an array is returned (then its value)
     bld.hist <n> <ops> [zst]              ops over p (push) c (clone, drop original) k (clone, drop clone)
                                           0..9 (clone with an element `Clone` that panics on its j-th call, caught;
-                                          a clone that completes is dropped), last char b (build) | d (drop); `-` for none
+                                          a clone that completes is dropped),
+                                          A..H (a SECOND builder `t` gets m = 0..7 pushes, each caught;
+                                          `cur.clone_from(&t)`; `t` dropped) and S..Z (`t` gets m = 0..7 pushes;
+                                          `t.clone_from(&cur)`; `cur` dropped; continue with `t`): their step shows
+                                          one more field, the SOURCE's `as_slice` after the call;
+                                          last char b (build) | d (drop); `-` for none
           answer: per step `<op>=<ok|panic>,<len>,<t|f>,[ids]` joined by `;`, then `|b=[ids]`/`|b=panic`/`|d`,
                   then `|L=[id:m;id:d;…]` (ledger in event order; ids are creation numbers)
           with the third argument `zst` the elements are ZERO-SIZED tokens without identity: the same model
@@ -144,6 +149,7 @@ def ledgerStr (zst : Bool) (created : Nat) (led : List String) : String :=
 def handleBldK (zst : Bool) (n ops : String) : Option (String × String) := do
     let stepStr := stepStr zst
     let showArr := fun (l : List Nat) => if zst then s!"arr:{l.length}" else showNats l
+    let showSl := fun (l : List Nat) => if zst then toString l.length else showNats l
     let n ← n.toNat?
     let chars := if ops = "-" then [] else ops.toList
     let fresh : Nat → Nat → Nat := fun k _ => k
@@ -167,6 +173,10 @@ def handleBldK (zst : Bool) (n ops : String) : Option (String × String) := do
             let sl := (ArrayBuilder.asSlice res.1.1).getD []
             some (res.1, { steps := tr.steps ++ [stepStr ch false (ArrayBuilder.len res.1.1) (ArrayBuilder.isFull res.1.1) sl],
                            ledger := tr.ledger ++ dr.map fun i => s!"{i}:d" })
+          | .clonedFrom rej old src =>
+            let sl := (ArrayBuilder.asSlice res.1.1).getD []
+            some (res.1, { steps := tr.steps ++ [stepStr ch true (ArrayBuilder.len res.1.1) (ArrayBuilder.isFull res.1.1) sl ++ "," ++ showSl src],
+                           ledger := tr.ledger ++ (rej ++ old ++ src).map fun i => s!"{i}:d" })
         let fin := fun (f : String) (led : List String) =>
           (if tr.steps.isEmpty then "-" else ";".intercalate tr.steps) ++ "|" ++ f ++ "|" ++ ledgerStr zst st.2 (tr.ledger ++ led)
         match ch with
@@ -184,6 +194,10 @@ def handleBldK (zst : Bool) (n ops : String) : Option (String × String) := do
           (ArrayBuilder.dropped st.1).map fun d => fin "d" (d.map fun i => s!"{i}:d")
         | _ =>
           if ch.isDigit then (obsStep (.clonePanic (ch.toNat - '0'.toNat))).bind fun (s, t) => goM r s t
+          else if 'A' ≤ ch ∧ ch ≤ 'H' then
+            (obsStep (.cloneFrom ((List.range (ch.toNat - 'A'.toNat)).map (st.2 + ·)))).bind fun (s, t) => goM r s t
+          else if 'S' ≤ ch ∧ ch ≤ 'Z' then
+            (obsStep (.cloneInto ((List.range (ch.toNat - 'S'.toNat)).map (st.2 + ·)))).bind fun (s, t) => goM r s t
           else none
     -- reference: bounded vector
     let rec goS : List Char → (List Nat × Nat) → BTrace → Option String
@@ -202,6 +216,9 @@ def handleBldK (zst : Bool) (n ops : String) : Option (String × String) := do
           | .panicked dr =>
             some (res.1, { steps := tr.steps ++ [stepStr ch false res.1.1.length (res.1.1.length == n) res.1.1],
                            ledger := tr.ledger ++ dr.map fun i => s!"{i}:d" })
+          | .clonedFrom rej old src =>
+            some (res.1, { steps := tr.steps ++ [stepStr ch true res.1.1.length (res.1.1.length == n) res.1.1 ++ "," ++ showSl src],
+                           ledger := tr.ledger ++ (rej ++ old ++ src).map fun i => s!"{i}:d" })
         let fin := fun (f : String) (led : List String) =>
           (if tr.steps.isEmpty then "-" else ";".intercalate tr.steps) ++ "|" ++ f ++ "|" ++ ledgerStr zst st.2 (tr.ledger ++ led)
         match ch with
@@ -217,6 +234,10 @@ def handleBldK (zst : Bool) (n ops : String) : Option (String × String) := do
           if r ≠ [] then none else some (fin "d" (st.1.map fun i => s!"{i}:d"))
         | _ =>
           if ch.isDigit then (obsStep (.clonePanic (ch.toNat - '0'.toNat))).bind fun (s, t) => goS r s t
+          else if 'A' ≤ ch ∧ ch ≤ 'H' then
+            (obsStep (.cloneFrom ((List.range (ch.toNat - 'A'.toNat)).map (st.2 + ·)))).bind fun (s, t) => goS r s t
+          else if 'S' ≤ ch ∧ ch ≤ 'Z' then
+            (obsStep (.cloneInto ((List.range (ch.toNat - 'S'.toNat)).map (st.2 + ·)))).bind fun (s, t) => goS r s t
           else none
     let m ← goM chars (ArrayBuilder.new n, 0) {}
     let s ← goS chars ([], 0) {}
